@@ -1042,6 +1042,27 @@ class Evaluator:
             ast.copy_location(call.func, e)
             yield from self._call(call, st, rel)
             return
+        # functools.partial(F, …): remembered, applied where it is called
+        if name in ("functools.partial", "partial") and e.args \
+                and "partial" not in st.env:
+            callee = e.args[0]
+            pname = dotted(callee) or txt(callee)
+            ptarget = None
+            if isinstance(callee, ast.Name):
+                if callee.id in st.env and st.env[callee.id].kind == "func":
+                    ptarget = st.env[callee.id].val
+                elif self.resolver:
+                    ptarget = self.resolver(rel, callee.id)
+            fake = ast.Call(func=callee, args=list(e.args[1:]),
+                            keywords=list(e.keywords))
+            ast.copy_location(fake, e)
+            for st2, (args, kwargs) in self._args(fake, st, rel):
+                p = set()
+                for a in list(args) + list(kwargs.values()):
+                    p |= a.prov
+                yield st2, V("partial", (pname, list(args), dict(kwargs),
+                                         ptarget), p)
+            return
         if name == "map" and "map" not in st.env and len(e.args) == 2 \
                 and not e.keywords:
             # map(f, xs) reads like [f(x) for x in xs]
@@ -1153,6 +1174,28 @@ class Evaluator:
                         st3.env[e.func.value.id] = recv.with_prov(p)
                     yield st3, unknown(p)
                 return
+        if isinstance(e.func, ast.Name) and e.func.id in st.env \
+                and st.env[e.func.id].kind == "partial":
+            pname, pargs, pkw, ptarget = st.env[e.func.id].val
+            for st2, (args, kwargs) in self._args(e, st, rel):
+                args2 = list(pargs) + list(args)
+                kw2 = dict(pkw)
+                kw2.update(kwargs)
+                if self.call_hook is not None:
+                    hv = self.call_hook(pname, args2, kw2, e, st2, rel)
+                    if hv is not None:
+                        yield st2, hv
+                        continue
+                if ptarget is not None and self.depth < self.MAX_DEPTH:
+                    yield from self._inline(ptarget, args2, kw2, st2)
+                    continue
+                p = set()
+                for a in list(args2) + list(kw2.values()):
+                    p |= a.prov | self._deep_prov(a)
+                if not st2.diag_depth:
+                    st2.marks |= p
+                yield st2, unknown(p)
+            return
         # plain function call
         target = None
         if isinstance(e.func, ast.Name):
